@@ -14,7 +14,7 @@ TABLE = [
  ("private", "PrivCalls",   "PrivMenu",   "Genesis0",     '{"eth"}',        "Mods0",         (2, 3, 1), (2, 4, 2)),
  ("percode", "PcCalls",     "PcMenu",     "GenesisPC",    '{"eth"}',        "Mods0",         (2, 3, 1), (5, 3, 2)),
  ("registry","RegCalls",    "RegMenu",    "Genesis0",     '{"eth"}',        "Mods0",         (3, 2, 1), (4, 2, 2)),
- ("admin",   "AdmCalls",    "AdmMenu",    "Genesis0",     '{"eth"}',        "Mods0",         (2, 3, 1), (5, 3, 2)),
+ ("admin",   "AdmCalls",    "AdmMenu",    "GenesisAdm",    '{"eth"}',        "Mods0",         (2, 3, 1), (5, 3, 2)),
  ("strings", "StrCalls",    "StrMenu",    "Genesis0",     '{"eth"}',        "Mods0",         (1, 3, 1), (1, 3, 2)),
  ("routeacc","RouteCalls",  "RouteMenu",  "GenesisRoute",     '{"eth"}',        "ModsAcceptAll", (1, 3, 1), (1, 3, 2)),
  ("routemix","RouteCalls",  "RouteMenu",  "GenesisRoute",     '{"eth"}',        "ModsMixed",     (1, 3, 1), (1, 3, 2)),
